@@ -24,6 +24,8 @@
 /* ------------------------------------------------------------------ symbolic inputs */
 static char tok[L + 1];
 static jwk_item_t key, key2;
+static const jwk_item_t *prior_key;
+static jwt_alg_t prior_alg;
 static unsigned char octkey[4];
 
 /* ------------------------------------------------------------------ parse monitor */
@@ -422,16 +424,32 @@ int main(void)
 		__CPROVER_assume(a <= JWT_ALG_INVAL);
 		cfg_alg = (jwt_alg_t)a;
 	}
+#ifdef PROP_C02_SETKEY
+	/* setkey as ONE STEP from an arbitrary earlier pin (histories of setkey calls of any length):
+	 * whatever key/algorithm an earlier call left on the checker */
+	{
+		unsigned pa = nondet_uint();
+		__CPROVER_assume(pa < JWT_ALG_INVAL);
+		prior_alg = (jwt_alg_t)pa;
+		prior_key = nondet_bool() ? &key2 : NULL;
+		chk->c.alg = prior_alg;
+		chk->c.key = prior_key;
+	}
+#endif
 	setkey_ret = jwt_checker_setkey(chk, cfg_alg, have_key ? &key : NULL);
 #ifdef PROP_C02_SETKEY
 	PROP((setkey_ret == 0) == ref_setkey_admits(cfg_alg, have_key, key.alg),
 			 "C02: setkey admits exactly the documented table");
-	PROP(setkey_ret == 0 || (chk->c.key == NULL && chk->c.alg == JWT_ALG_NONE),
-			 "C02: a refused setkey leaves no key/alg configured");
+	PROP(setkey_ret == 0 || (chk->c.key == prior_key && chk->c.alg == prior_alg),
+			 "C02/C03: a refused setkey leaves the previously pinned key and algorithm in place");
 	PROP(setkey_ret != 0 || (chk->c.key == (have_key ? &key : NULL) && chk->c.alg == cfg_alg),
 			 "C02: an admitted setkey stores exactly what was given");
+	REACH(setkey_ret != 0 && prior_key != NULL, "setkey refused on a checker that already holds a key");
 #endif
 	if (setkey_ret) {
+		/* the rest of the scenario continues from a checker without key and algorithm */
+		chk->c.key = NULL;
+		chk->c.alg = JWT_ALG_NONE;
 		have_key = 0;
 		cfg_alg = JWT_ALG_NONE;
 		jwt_checker_error_clear(chk);
@@ -615,6 +633,10 @@ int main(void)
 #endif
 
 #ifdef PROP_C02
+		/* the pin is the APPLICATION's: verifying a token - whatever its callback selected for that
+		 * one token - leaves the key and algorithm stored on the checker as setkey left them */
+		PROP(chk->c.key == (have_key ? &key : NULL) && chk->c.alg == cfg_alg,
+		     "C02: verification leaves the checker's pinned key and algorithm as the application set them");
 		if (v == 0) {
 			PROP(!have_cb || cb_ret == 0, "C02/C19: callback error is never accepted");
 			PROP(ref_setkey_admits(eff_alg, eff_have_key, eff_have_key ? eff_key->alg : JWT_ALG_NONE),
